@@ -25,9 +25,12 @@ from fractions import Fraction
 
 ROOT = pathlib.Path(__file__).resolve().parent.parent
 SPEC = ROOT / "spec"
-BUILD = ROOT / "build"
-EVID = ROOT / "evidence"
-REPLAYS = ROOT / "replays"
+# VERIF_REPO / VERIF_OUT: used only by seeded_matrix.py to run the checks against scratch worktrees in parallel; the registered
+# commands never set them (they check /repo's working tree and write under /verif)
+OUT = pathlib.Path(os.environ.get("VERIF_OUT", ROOT))
+BUILD = OUT / "build"
+EVID = OUT / "evidence"
+REPLAYS = OUT / "replays"
 REPO = pathlib.Path(os.environ.get("VERIF_REPO", "/repo"))
 TLA_CP = "/opt/veriftools/tla/tla2tools.jar:/opt/veriftools/tla/CommunityModules-deps.jar"
 NCPU = int(os.environ.get("VERIF_NCPU", os.cpu_count() or 4))
@@ -69,11 +72,17 @@ def setup_env():
     cache.mkdir(parents=True, exist_ok=True)
     # prune caches of other trees (keep the 2 most recent besides ours)
     try:
+        import time as _t
         others = sorted((d for d in cache_root.iterdir() if d.is_dir() and d != cache), key=lambda d: d.stat().st_mtime)
-        for d in others[:-2]:
+        for d in [o for o in others[:-2] if _t.time() - o.stat().st_mtime > 3 * 3600]:   # (never one a concurrent run may be using)
             shutil.rmtree(d, ignore_errors=True)
     except Exception:
         pass
+    if str(REPO) != "/repo":     # a scratch tree: shadow the editable install, here and in every child process
+        src = str(REPO / "src")
+        if src not in sys.path:
+            sys.path.insert(0, src)
+        os.environ["PYTHONPATH"] = src + (os.pathsep + os.environ["PYTHONPATH"] if os.environ.get("PYTHONPATH") and src not in os.environ["PYTHONPATH"] else "")
     os.environ["VERIF_TREE_HASH"] = _TREE
     os.environ["NUMBA_CACHE_DIR"] = str(cache)
     os.environ["YADISM_VERIF"] = "1"
